@@ -238,3 +238,28 @@ impl CondModel {
     }
 
 }
+
+
+// ---------------------------------------------------------------------------------------------
+/// FragSize.tla bound to RtpsUdpTransportParticipantFactory::set_fragment_size (C38)
+pub struct FragModel {
+    f: dust_dds::rtps_udp_transport::udp_transport::RtpsUdpTransportParticipantFactory,
+}
+impl FragModel {
+    pub fn new(_cfg: &Value) -> Self {
+        FragModel { f: Default::default() }
+    }
+}
+impl Model for FragModel {
+    fn apply(&mut self, op: &Value) -> Value {
+        let v = op["v"].as_u64().unwrap();
+        let v = if v == 2_000_000_000 { usize::MAX } else { v as usize };
+        match self.f.set_fragment_size(v) {
+            Ok(_) => json!({"res": "Ok"}),
+            Err(e) => json!({"res": format!("{e:?}")}),
+        }
+    }
+    fn project(&self) -> Value {
+        json!({"cur": self.f.fragment_size()})
+    }
+}
